@@ -213,8 +213,8 @@ func buildBA(m vec) *bitarray.BitArray {
 	}
 	ba := bitarray.NewBitArray(len(m.b))
 	for i, x := range m.b {
-		if x && !ba.SetIndex(i, true) {
-			panic("SetIndex refused an in-range index")
+		if x {
+			ba.SetIndex(i, true) // a refusal shows up as a GetIndex mismatch when the array is observed
 		}
 	}
 	return ba
@@ -802,8 +802,8 @@ func buildCBA(m vec) *cba.CompactBitArray {
 	}
 	a := cba.NewCompactBitArray(len(m.b))
 	for i, x := range m.b {
-		if x && !a.SetIndex(i, true) {
-			panic("SetIndex refused an in-range index")
+		if x {
+			a.SetIndex(i, true) // a refusal shows up as a Size/GetIndex mismatch when the array is observed
 		}
 	}
 	return a
